@@ -132,6 +132,8 @@ where
     #[cfg(feature = "tracing")]
     let take_fn_span = Span::current();
     Box::new(move |source| {
+        #[cfg(callbag_verif)]
+        use crate::verif::sync::{ArcSwapOption, AtomicBool, AtomicUsize};
         #[cfg(feature = "tracing")]
         let _take_fn_entered = take_fn_span.enter();
         let source: Arc<Source<T>> = source.into();
